@@ -242,33 +242,74 @@ func ruleWebVTTSettings(p *Prog, l *Ledger, tier string) {
 			}
 		}
 	}
-	// writer: "key<sep>" + value
+	// writer: "key<sep>" + value, in the writer or in a helper it calls with the key and the value
+	// (then every call site of the helper is one setting: parameters are replaced by its arguments)
 	writer := map[string]map[string]strset{":": {}, "=": {}}
-	for _, b := range wr.Blocks {
-		for _, ins := range b.Instrs {
-			bo, ok := ins.(*ssa.BinOp)
-			if !ok || bo.Op != token.ADD {
-				continue
+	note := func(sep, k string, fields strset) {
+		if i := strings.LastIndexAny(k, " "); i >= 0 {
+			k = k[i+1:]
+		}
+		if f, ok := oneOf(fields); ok && k != "" {
+			if writer[sep][k] == nil {
+				writer[sep][k] = strset{}
 			}
-			c, ok := constStr(bo.X)
-			if !ok || len(c) < 2 {
-				continue
-			}
-			sep := c[len(c)-1:]
-			if sep != ":" && sep != "=" {
-				continue
-			}
-			k := c[:len(c)-1]
-			if i := strings.LastIndexAny(k, " "); i >= 0 {
-				k = k[i+1:]
-			}
-			s := strset{}
-			traceField(bo.Y, "", map[ssa.Value]bool{}, s)
-			if f, ok := oneOf(s); ok {
-				if writer[sep][k] == nil {
-					writer[sep][k] = strset{}
+			writer[sep][k].add(f)
+		}
+	}
+	for _, h := range p.Helpers(wr) {
+		if fnPkg(h) != p.LibSSA {
+			continue
+		}
+		for _, b := range h.Blocks {
+			for _, ins := range b.Instrs {
+				bo, ok := ins.(*ssa.BinOp)
+				if !ok || bo.Op != token.ADD || !isStringT(bo.Type()) {
+					continue
 				}
-				writer[sep][k].add(f)
+				// only the root of a concatenation
+				isOperand := false
+				for _, r := range *bo.Referrers() {
+					if b2, ok := r.(*ssa.BinOp); ok && b2.Op == token.ADD {
+						isOperand = true
+					}
+				}
+				if isOperand {
+					continue
+				}
+				parts := concatParts(bo)
+				for j, part := range parts[:len(parts)-1] {
+					c, ok := constStr(part)
+					if !ok || c == "" {
+						continue
+					}
+					sep := c[len(c)-1:]
+					if sep != ":" && sep != "=" {
+						continue
+					}
+					val := parts[j+1]
+					if len(c) >= 2 {
+						// "key:" + value
+						for _, inst := range p.instantiate(wr, h, []ssa.Value{val}) {
+							fs := strset{}
+							traceField(inst[0], "", map[ssa.Value]bool{}, fs)
+							note(sep, c[:len(c)-1], fs)
+						}
+					} else if j > 0 {
+						// key + ":" + value
+						for _, inst := range p.instantiate(wr, h, []ssa.Value{parts[j-1], val}) {
+							k, ok := constStr(inst[0])
+							if !ok {
+								continue
+							}
+							fs := strset{}
+							for _, v := range inst[1:] {
+								traceField(v, "", map[ssa.Value]bool{}, fs)
+							}
+							note(sep, k, fs)
+						}
+					}
+					break
+				}
 			}
 		}
 	}
@@ -546,4 +587,88 @@ func collectLiterals(r *syntax.Regexp, prefix string, out *[]string) {
 	case syntax.OpCapture:
 		collectLiterals(r.Sub[0], prefix, out)
 	}
+}
+
+func isStringT(t types.Type) bool {
+	b, ok := t.Underlying().(*types.Basic)
+	return ok && b.Info()&types.IsString != 0
+}
+
+// concatParts: the operands of a left-nested string concatenation a + b + c, in order.
+func concatParts(v ssa.Value) []ssa.Value {
+	if bo, ok := v.(*ssa.BinOp); ok && bo.Op == token.ADD && isStringT(bo.Type()) {
+		return append(concatParts(bo.X), concatParts(bo.Y)...)
+	}
+	return []ssa.Value{v}
+}
+
+// instantiate: the values vs of helper h as the call sites of h inside Helpers(root) see them.
+// Each value is followed through phis to the parameters of h it can come from; for every call
+// site the result holds, per value, the arguments bound to those parameters (first value: exactly
+// one argument expected, further values are flattened after it).  For h == root, or values that do
+// not depend on parameters, the values are returned as they are.
+func (p *Prog) instantiate(root, h *ssa.Function, vs []ssa.Value) [][]ssa.Value {
+	paramsOf := func(v ssa.Value) []int {
+		var out []int
+		seen := map[ssa.Value]bool{}
+		var walk func(x ssa.Value)
+		walk = func(x ssa.Value) {
+			if seen[x] {
+				return
+			}
+			seen[x] = true
+			switch t := x.(type) {
+			case *ssa.Parameter:
+				for i, q := range h.Params {
+					if q == t {
+						out = append(out, i)
+					}
+				}
+			case *ssa.Phi:
+				for _, e := range t.Edges {
+					walk(e)
+				}
+			}
+		}
+		walk(v)
+		return out
+	}
+	if h == root {
+		return [][]ssa.Value{vs}
+	}
+	idx := make([][]int, len(vs))
+	any := false
+	for i, v := range vs {
+		idx[i] = paramsOf(v)
+		if len(idx[i]) > 0 {
+			any = true
+		}
+	}
+	if !any {
+		return [][]ssa.Value{vs}
+	}
+	var out [][]ssa.Value
+	for _, b := range p.helperBlocks(root) {
+		for _, ins := range b.Instrs {
+			c, ok := ins.(ssa.CallInstruction)
+			if !ok || c.Common().StaticCallee() != h {
+				continue
+			}
+			args := c.Common().Args
+			var inst []ssa.Value
+			for i, v := range vs {
+				if len(idx[i]) == 0 {
+					inst = append(inst, v)
+					continue
+				}
+				for _, k := range idx[i] {
+					if k < len(args) {
+						inst = append(inst, args[k])
+					}
+				}
+			}
+			out = append(out, inst)
+		}
+	}
+	return out
 }
